@@ -25,3 +25,19 @@ ASSUMPTIONS = [
     "ESX: one object (<=3 names) and one array (<=3 elements), explored to a fixpoint; states de-duplicated on a 128-bit hash of the canonical state",
     "the independent reader uses libc strtod for the value of a number token it has already validated against the RFC 8259 grammar",
 ]
+
+# mutants/*.diff (applied to a scratch worktree, VERIF_REPO=..., quick tier) and the clause that caught each:
+#   add_to_object_no_duplicate_test          -> json-seq/duplicate-key-not-refused (ESX)
+#   print_number_no_recover_test             -> num/number-beyond-tolerance
+#   print_number_fallback_16_digits          -> num/number-beyond-tolerance
+#   print_number_14_digits                   -> NOT caught: equivalent w.r.t. the property (the recover test falls back to 17 digits;
+#                                               it even removes num/number-near-dbl-max-not-finite)
+#   escape_0x1f_emitted_raw                  -> {byte,str,strtext,tree,uescape}/emitted-text-not-json (independent reader only:
+#                                               cJSON's own parser accepts the raw control character)
+#   surrogate_low_half_mask                  -> surrogate/string-bytes, strtext|str|tree/{string,key}-bytes
+#   hex4_uppercase_off_by_one                -> uescape|strtext|byte|str|tree/string-bytes, */escaped-text-rejected
+#   detach_last_keeps_stale_next             -> json-seq/asan:use-after-poison:print_object (ESX, after remove of the last member)
+#   remove_array_element_index1_off_by_one   -> json-seq/array-contents (ESX)
+#   duplicate_shares_string                  -> {byte,str,tree}/asan:use-after-poison (duplicate walked after the original is destroyed)
+#   formatted_print_leaks_text               -> */allocator-balance
+#   formatted_array_drops_comma              -> tree/emitted-text-not-json (formatted output)
